@@ -85,8 +85,17 @@ var niceMult = []int64{5, 10, 11, 20, 30, 15, 10, 10}
 
 func (s *sysEnv) setFee(id int, tenths int64) {
 	m := new(big.Int).Mul(bi(tenths), new(big.Int).Div(e18, bi(10)))
-	if err := s.tre.SetRelayerFee(s.ctx, s.p.addrs[id], &treasurytypes.RelayerFeeSetting{ValAddress: s.p.strs[id],
-		Fees: []treasurytypes.RelayerFeeSetting_FeeSetting{{ChainReferenceId: s.chain, Multiplicator: dec(m)}}}); err != nil {
+	fees := []treasurytypes.RelayerFeeSetting_FeeSetting{{ChainReferenceId: s.chain, Multiplicator: dec(m)}}
+	// a case twin of the chain id with another price, in front of or behind the real entry: eligibility and ranking
+	// read the entry of exactly this chain, and so must the price attached at the election
+	twin := treasurytypes.RelayerFeeSetting_FeeSetting{ChainReferenceId: strings.ToUpper(s.chain), Multiplicator: dec(new(big.Int).Mul(bi(99), new(big.Int).Div(e18, bi(10))))}
+	switch (int64(id) + tenths) % 3 {
+	case 1:
+		fees = append([]treasurytypes.RelayerFeeSetting_FeeSetting{twin}, fees...)
+	case 2:
+		fees = append(fees, twin)
+	}
+	if err := s.tre.SetRelayerFee(s.ctx, s.p.addrs[id], &treasurytypes.RelayerFeeSetting{ValAddress: s.p.strs[id], Fees: fees}); err != nil {
 		s.t.Fatal(err)
 	}
 }
@@ -427,6 +436,9 @@ func doSys(t *testing.T, run *emit.Run, p *pool, r *rand.Rand, script []string) 
 				what = "delete"
 			}
 		}
+		if !scripted && len(forced) == 0 && r.Intn(12) == 0 {
+			what = "branch"
+		}
 		forceID = 0
 		if !scripted && len(forced) > 0 {
 			what = forced[0]
@@ -445,6 +457,42 @@ func doSys(t *testing.T, run *emit.Run, p *pool, r *rand.Rand, script []string) 
 		s.ctx = s.ctx.WithBlockTime(time.Unix(ts, 0).UTC())
 		run.Count("sys-op", strings.SplitN(what, ":", 2)[0])
 		switch strings.SplitN(what, ":", 2)[0] {
+		case "branch":
+			// a store branch at the same height that is DISCARDED (a multi-message tx failing later, CheckTx, simulation):
+			// a validator without a fee record upserts one and a message is assigned there.  Nothing of it may be
+			// visible to the assignments that follow on the committed context; the model has no step for it.
+			recs, _ := s.tre.GetRelayerFees(s.ctx)
+			has := map[string]bool{}
+			for _, rf := range recs {
+				for _, f := range rf.Fees {
+					if f.ChainReferenceId == s.chain {
+						has[rf.ValAddress] = true
+					}
+				}
+			}
+			done := false
+			for _, v := range s.snap {
+				if has[p.strs[v.id]] {
+					continue
+				}
+				bctx, _ := s.ctx.CacheContext()
+				_ = s.tre.SetRelayerFee(bctx, p.addrs[v.id], &treasurytypes.RelayerFeeSetting{ValAddress: p.strs[v.id],
+					Fees: []treasurytypes.RelayerFeeSetting_FeeSetting{{ChainReferenceId: s.chain, Multiplicator: dec(new(big.Int).Div(e18, bi(10)))}}})
+				func() {
+					defer func() { _ = recover() }()
+					_, _ = s.evm.AddSmartContractExecutionToConsensus(bctx, s.chain, s.turn, &evmtypes.SubmitLogicCall{HexContractAddress: "0x01", Payload: []byte{9}, SenderAddress: []byte("carol")})
+				}()
+				done = true
+				break
+			}
+			if done {
+				run.Count("sys-branch", "discarded-branch-with-uncommitted-fee")
+				forced = []string{"request", "request", "request"}
+				nops += 3
+			} else {
+				run.Count("sys-branch", "no-fee-less-snapshot-validator")
+			}
+			continue
 		case "tables":
 			chg := r.Intn(9)
 			if scripted {
